@@ -67,6 +67,15 @@ def bow_chain(env):
     if not m:
         raise F.FactError("`let can_bow = if ...;` not found in %s:build" % BUF)
     chain = m.group(1)
+    # `if next_bow { <inner chain> } else { <E> }` is `if !next_bow { <E> } else <inner chain>`  (if c {X} else {Y} = if !c {Y} else {X};
+    # `else { if .. }` = `else if ..`): read in the negated form the patterns below are written for
+    mu = re.match(r"if\s+next_bow\s*\{", chain)
+    if mu:
+        e1 = IH._match_close(chain, mu.end() - 1, "{", "}")
+        me = re.fullmatch(r"\s*else\s*\{([^{}]*)\}\s*", chain[e1 + 1:]) if e1 > 0 else None
+        inner = chain[mu.end():e1].strip() if e1 > 0 else ""
+        if me and inner.startswith("if ") and IH._split_tail(inner)[0].strip() == "":
+            chain = "if !next_bow {%s} else %s" % (me.group(1), inner)
     parts = re.findall(r"(?:^|else\s+)if\s+(.*?)\s*\{(.*?)\}\s*(?=else)", chain, flags=re.S)
     m_else = re.search(r"else\s*\{([^{}]*)\}\s*$", chain, flags=re.S)
     if not parts or not m_else:
@@ -221,7 +230,9 @@ def gen():
         if "if other_words.not_empty() { return Ok(0); }" not in sim or "input_text.get_word_candidate_length(offset)" not in sim:
             raise F.FactError("SimpleOovPlugin::provide_oov changed")
         wl = norm(F.strip_comments(F.fn_body(F.src(BUF), "get_word_candidate_length", BUF)))
-        if "for i in (char_idx + 1)..char_len { let byte_idx = self.mod_c2b[i]; if self.can_bow(byte_idx) { return i - char_idx; } } char_len - char_idx" not in wl:
+        # the first i in char_idx+1 .. char_len whose byte can start a word, as a `for` with early return or as Range::find
+        if "for i in (char_idx + 1)..char_len { let byte_idx = self.mod_c2b[i]; if self.can_bow(byte_idx) { return i - char_idx; } } char_len - char_idx" not in wl \
+           and not re.search(r"let (\w+) = \(\(char_idx \+ 1\)\.\.char_len\)\.find\(\|&(\w+)\| self\.can_bow\(self\.mod_c2b\[\2\]\)\); match \1 \{ Some\((\w+)\) => \3 - char_idx, None => char_len - char_idx,? \}$", wl):
             raise F.FactError("InputBuffer::get_word_candidate_length changed")
         return "true"
     fact("simple_shape_recognised", "bool", "true", simple_shape)
@@ -243,9 +254,21 @@ def gen():
             raise F.FactError("default_max_length of RegexOovProvider not found")
         return m.group(1)
     fact("regex_default_max_length", "nat", "32", maxlen)
-    # since fix d4b32a6 an empty match is not a word
+    # since fix d4b32a6 an empty match is not a word: `if <match>.end() == 0 { return Ok(0); }` in front of the use of <match>.end()
+    # for the candidate's end, <match> being whatever the result of regex.find is called
+    def ignores_empty():
+        b = norm(F.strip_comments(F.fn_body(F.src(REGEX), "provide_oov", REGEX)))
+        mv = re.search(r"input_text\.ch_idx\(byte_offset \+ (\w+)\.end\(\)\)", b)
+        if not mv:
+            raise F.FactError("RegexOovProvider::provide_oov: end of the candidate not recognised")
+        v = mv.group(1)
+        if not re.search(r"match regex\.find\(text_data\) \{.*?Some\((\w+)\) => (?:\1,? \}; |\{ )", b) or \
+           not (re.search(r"Some\(%s\) => \{" % v, b) or re.search(r"let %s = match regex\.find\(text_data\) \{ None => return Ok\(0\), Some\((\w+)\) => \1,? \};" % v, b)):
+            raise F.FactError("RegexOovProvider::provide_oov: the match whose end is used is not the result of regex.find(text_data)")
+        mg = re.search(r"if %s\.end\(\) == 0 \{ return Ok\(0\); \}" % v, b)
+        return bool(mg) and mg.start() < mv.start()
     fact("regex_ignores_empty_match", "bool", "true",
-         lambda: "true" if re.search(r"if m\.end\(\) == 0 \{ return Ok\(0\); \}", rx()) else "false")
+         lambda: "true" if ignores_empty() else "false")
 
     def cr():
         return norm(F.strip_comments(F.src(CREATED)))
